@@ -107,11 +107,53 @@ def changed_cells(a, b):
 
 
 def failure_signature(bundle, exc):
-  """Root-cause signature of a failed bundle: action kinds + exception type and message with
-  identifiers and numbers blanked."""
+  """Root-cause signature of a failed bundle: exception type and message, numbers blanked (the
+  action kinds of the bundle are not part of it: a witness that is not fully shrunk must map to
+  the same class)."""
   import re
   msg = re.sub(r"\d+", "N", str(exc).splitlines()[0] if str(exc) else "")[:80]
-  return "%s raised %s(%s)" % ("+".join(_kinds(bundle)), type(exc).__name__, msg)
+  return "%s(%s)" % (type(exc).__name__, msg)
+
+
+def tune_explore(shrink_budget_s=8):
+  """explore.shrink spends up to 20 s per failing history; with several known findings per run that
+  does not fit the quick budget.  Same shrinker, smaller budget (classes are computed from details
+  that do not depend on full minimality)."""
+  import functools
+  if not getattr(explore.shrink, "_tuned", False):
+    orig = explore.shrink
+    def shrink(monitor, seed_name, history, clause, budget_s=shrink_budget_s):
+      return orig(monitor, seed_name, history, clause, budget_s=budget_s)
+    shrink._tuned = True
+    explore.shrink = shrink
+
+
+class StatSink(object):
+  """Per-history counters written by worker processes (Monitor.finish) and summed by main()."""
+  def __init__(self, env):
+    self.env = env
+  def open(self):
+    import tempfile
+    self.dir = tempfile.mkdtemp(prefix="verif-stats-")
+    os.environ[self.env] = self.dir
+  def put(self, stats):
+    import json
+    d = os.environ.get(self.env)
+    if d and os.path.isdir(d):
+      with open(os.path.join(d, "%d.jsonl" % os.getpid()), "a") as f:
+        f.write(json.dumps(stats) + "\n")
+  def total(self):
+    import glob, json, shutil
+    tot = {}
+    def add(dst, src):
+      for k, v in src.items():
+        if isinstance(v, dict): add(dst.setdefault(k, {}), v)
+        else: dst[k] = dst.get(k, 0) + v
+    for path in glob.glob(os.path.join(self.dir, "*.jsonl")):
+      for line in open(path):
+        add(tot, json.loads(line))
+    shutil.rmtree(self.dir, ignore_errors=True)
+    return tot
 
 
 def _kinds(bundle):
@@ -172,7 +214,7 @@ class C02Monitor(explore.Monitor):
 
   def classify(self, clause, detail, bundle, history):
     if detail.get("after_failed_bundles"):
-      return "engine changed by a failed bundle: " + detail["after_failed_bundles"][0]
+      return "engine changed by a failed bundle that raised " + detail["after_failed_bundles"][0]
     return "%s after %s" % (clause, "+".join(_kinds(bundle)))
 
 
@@ -191,7 +233,8 @@ def main():
                           "actions applied to the ghost TableDataSet, and the four clauses checked "
                           "over every table (metadata included); non-trivial = the bundle emitted "
                           "stored actions or raised")
-  explore.explore(rep, "checks.C02", "C02Monitor")
+  tune_explore()
+  explore.explore(rep, "checks.C02", "C02Monitor", n_quick=128, budget_quick_s=45)
   return rep.finish()
 
 
